@@ -3,6 +3,7 @@ package main
 import (
 	"fmt"
 	"math/rand/v2"
+	"regexp"
 	"sort"
 	"strconv"
 	"strings"
@@ -13,6 +14,9 @@ type Matcher struct {
 	Label string `json:"label"`
 	Op    string `json:"op"` // = != =~ !~
 	Value string `json:"value"`
+	// Class: "" when some series of the metric family carries the label; otherwise
+	// "absent-label/matches-empty" or "absent-label/rejects-empty" (data shape)
+	Class string `json:"class,omitempty"`
 }
 
 // Node is an expression of the generated PromQL subset.
@@ -48,9 +52,6 @@ type Node struct {
 
 	// Paren: the node is written inside (redundant) parentheses
 	Paren bool `json:"paren,omitempty"`
-
-	// AbsentLbl marks, per matcher, a label that no series of the metric family carries
-	AbsentLbl []bool `json:"absent_label,omitempty"`
 }
 
 func durStr(ms int64) string {
@@ -143,14 +144,24 @@ func (n *Node) String() string {
 	return "?"
 }
 
-// Shape abstracts literals away: function / operator names, grouping kind, matcher kinds,
-// modifiers and the value kind of the selected metric family stay. It is the
-// "function/operator × data shape" part of finding signatures.
+// Shape abstracts literals away: function / operator names, grouping kind, matcher kinds
+// (with the data shape "label absent from the family"), modifiers, redundant parentheses
+// and the value kind of the selected metric family stay. It is the "function/operator ×
+// data shape" part of finding signatures.
 func (n *Node) Shape() string {
+	if n.Paren {
+		k := *n
+		k.Paren = false
+		return "paren(" + k.Shape() + ")"
+	}
 	sel := func(withRange bool) string {
 		ops := []string{}
 		for _, m := range n.Matchers {
-			ops = append(ops, m.Op)
+			o := m.Op
+			if m.Class != "" {
+				o += "@" + m.Class
+			}
+			ops = append(ops, o)
 		}
 		sort.Strings(ops)
 		s := "<" + n.MKind + ">"
@@ -189,7 +200,14 @@ func (n *Node) Shape() string {
 		if n.Match != "" {
 			op += " " + n.Match
 		}
-		return "(" + n.L.Shape() + ") " + op + " (" + n.R.Shape() + ")"
+		l, r := n.L.Shape(), n.R.Shape()
+		if n.L.Kind == "bin" && !n.L.Paren {
+			l = "paren(" + l + ")"
+		}
+		if n.R.Kind == "bin" && !n.R.Paren {
+			r = "paren(" + r + ")"
+		}
+		return l + " " + op + " " + r
 	case "num":
 		return "scalar"
 	}
@@ -201,7 +219,7 @@ func (n *Node) Kids() []*Node {
 	switch n.Kind {
 	case "rfn":
 		k := *n
-		k.Kind, k.Fn, k.Range = "sel", "", 0
+		k.Kind, k.Fn, k.Range, k.Paren = "sel", "", 0, false
 		return []*Node{&k}
 	case "agg":
 		return []*Node{n.Child}
@@ -218,12 +236,89 @@ func (n *Node) Kids() []*Node {
 	return nil
 }
 
+// Simpler returns variants of the node with one detail removed (a matcher, the offset,
+// redundant parentheses, the grouping clause, the bool modifier, a nested operand
+// replaced by its own operand). The minimiser keeps a variant if it still disagrees.
+func (n *Node) Simpler() []*Node {
+	var out []*Node
+	cp := func() *Node { k := *n; return &k }
+	if n.Paren {
+		k := cp()
+		k.Paren = false
+		out = append(out, k)
+	}
+	switch n.Kind {
+	case "sel", "rfn":
+		for i := range n.Matchers {
+			k := cp()
+			k.Matchers = append(append([]Matcher{}, n.Matchers[:i]...), n.Matchers[i+1:]...)
+			out = append(out, k)
+		}
+		if n.Offset != 0 {
+			k := cp()
+			k.Offset = 0
+			out = append(out, k)
+		}
+	case "agg":
+		if n.Grouping != "" {
+			k := cp()
+			k.Grouping, k.Labels = "", nil
+			out = append(out, k)
+		}
+		for _, c := range n.Child.Simpler() {
+			k := cp()
+			k.Child = c
+			out = append(out, k)
+		}
+		for _, c := range n.Child.Kids() {
+			k := cp()
+			k.Child = c
+			out = append(out, k)
+		}
+	case "bin":
+		if n.Bool && !(n.L.Kind == "num" && n.R.Kind == "num") {
+			k := cp()
+			k.Bool = false
+			out = append(out, k)
+		}
+		for _, c := range n.L.Simpler() {
+			k := cp()
+			k.L = c
+			out = append(out, k)
+		}
+		for _, c := range n.R.Simpler() {
+			k := cp()
+			k.R = c
+			out = append(out, k)
+		}
+		if n.Match == "" { // replacing an operand keeps one-to-one matching only without on/ignoring
+			for _, c := range n.L.Kids() {
+				k := cp()
+				k.L = c
+				out = append(out, k)
+			}
+			for _, c := range n.R.Kids() {
+				k := cp()
+				k.R = c
+				out = append(out, k)
+			}
+		}
+	}
+	return out
+}
+
 // Constructs lists the construct tags of the expression (evidence: expressions by
 // construct).
 func (n *Node) Constructs(into map[string]struct{}) {
+	if n.Paren {
+		into["parentheses"] = struct{}{}
+	}
 	selTags := func() {
 		for _, m := range n.Matchers {
 			into["matcher:"+m.Op] = struct{}{}
+			if m.Class != "" {
+				into["matcher-on-"+m.Class] = struct{}{}
+			}
 		}
 		if n.Offset > 0 {
 			into["offset"] = struct{}{}
@@ -265,6 +360,9 @@ func (n *Node) Constructs(into map[string]struct{}) {
 			tag += ":" + n.Match
 		}
 		into[tag] = struct{}{}
+		if (n.L.Kind == "bin" && !n.L.Paren) || (n.R.Kind == "bin" && !n.R.Paren) {
+			into["parentheses"] = struct{}{}
+		}
 		n.L.Constructs(into)
 		n.R.Constructs(into)
 	}
@@ -385,7 +483,31 @@ func (g *gen) matcher(metric string, op string) Matcher {
 		}
 		v = pick(g, cands)
 	}
-	return Matcher{Label: l, Op: op, Value: v}
+	m := Matcher{Label: l, Op: op, Value: v}
+	if len(vals) == 0 {
+		m.Class = "absent-label/rejects-empty"
+		if matchesEmpty(m) {
+			m.Class = "absent-label/matches-empty"
+		}
+	}
+	return m
+}
+
+func matchesEmpty(m Matcher) bool {
+	switch m.Op {
+	case "=":
+		return m.Value == ""
+	case "!=":
+		return m.Value != ""
+	}
+	re, err := regexp.Compile("^(?:" + m.Value + ")$")
+	if err != nil {
+		return false
+	}
+	if m.Op == "=~" {
+		return re.MatchString("")
+	}
+	return !re.MatchString("")
 }
 
 func (g *gen) sel(metric, kind string, forceOp string) *Node {
@@ -463,6 +585,11 @@ func (g *gen) num() *Node { return &Node{Kind: "num", Val: pick(g, numbers)} }
 
 func (g *gen) binScalar(op string, boolMod bool, scalarLeft bool, child *Node) *Node {
 	n := &Node{Kind: "bin", Op: op, Bool: boolMod}
+	if g.rng.IntN(5) == 0 {
+		c := *child
+		c.Paren = true
+		child = &c
+	}
 	if scalarLeft {
 		n.L, n.R = g.num(), child
 	} else {
